@@ -25,8 +25,10 @@ def phase_args(ctx, kind, P, phase_mode):
     return "p", conf, phase_mode == "listed", None
 
 
-def u_law(ctx, kind, form="const", phase="none", off="absent"):
-    """One component, real constructor, real _solv_outp_volt / _solv_inp_curr on symbolic (vi, io)."""
+def u_law(ctx, kind, form="const", phase="none", off="absent", warm=False):
+    """One component, real constructor, real _solv_outp_volt / _solv_inp_curr on symbolic (vi, io).
+    ``warm``: the same object has been evaluated before at ANOTHER operating point (what every solver sweep, phase and later solve()
+    does) - whatever that left behind in the object, its interpolator or the module must not show in the evaluation checked here."""
     P = params(ctx, kind, "X", form)
     try:
         comp = construct(kind, "X", P)
@@ -38,6 +40,17 @@ def u_law(ctx, kind, form="const", phase="none", off="absent"):
     ctx.assume(io >= 0)
     ph, conf, active, lval = phase_args(ctx, kind, P, phase)
     pstate = {} if off == "absent" else {"off": [off == "true"]}
+    if warm:
+        vi0, io0 = ctx.real("vi_before"), ctx.real("io_before")
+        ctx.assume(io0 >= 0)
+        try:
+            vo0, _ = comp._solv_outp_volt([vi0], 0.0, io0, ph, conf, dict(pstate))
+            ii0 = comp._solv_inp_curr([vi0], vo0, io0, ph, conf, dict(pstate))
+            comp._solv_pwr_loss(vi0, vo0, ii0, io0, 25.0, ph, conf)
+        except ValueError as e:
+            if "Unstable system" not in str(e):
+                raise
+        ctx.cover("warmed")
     is_off = off == "true"
     if kind == "Converter":
         ctx.assume(Not(IsZero(P["vo"])))  # regulated outputs non-zero (quantifier)
@@ -153,6 +166,12 @@ def instances(tier):
                     cov = ["iin-evaluated"]
                     out.append(Instance("C01", "c01:u_law", dict(kind=kind, form=form, phase=ph, off=off), cover=cov,
                                         weight=5 if "t2" in form else 1, uf=form.startswith("t2")))
+        # the same object evaluated before at another operating point (state kept in the object / interpolator must not leak)
+        for form in forms:
+            # (exact 2-D tables: the clamping cascade squares the paths - Converter / VLoss / diode bridge exceed 15 min and are left to C10 u_repeat)
+            if form in ("const", "t1x2") or (form == "ct2x2x2" and kind in ("PSwitch", "LinReg")):
+                out.append(Instance("C01", "c01:u_law", dict(kind=kind, form=form, phase="none", off="absent", warm=True), cover=["iin-evaluated", "warmed"],
+                                    weight=8 if "t2" in form else 2))
     for k in (1, 2, 3):
         for offs in (["0" * k, "1" + "0" * (k - 1)] if tier == "quick" else
                      [format(b, "0%db" % k) for b in range(2 ** k)]):
@@ -176,8 +195,6 @@ def instances(tier):
         out.append(Instance("C01", "sys_common:s_real_loop", dict(shape=shape, oracle="c01"), name="RL/" + sid, uf=True, cover=["solved"], weight=20))
     from ..shapes import variants as _variants
     for sid, shape in _variants().items():
-        if None is not None and sid not in None:
-            continue
         out.append(Instance("C01", "sys_common:s_run", dict(shape=shape, oracle="c01"), name="S/var/" + sid, uf=True, cover=["solved"], weight=20))
     from . import xval
     out += xval.instances("C01", tier)
